@@ -110,6 +110,7 @@ type Stats struct {
 	SelectChoices    int64 // selects with more than one case: first case tried chosen by the tape
 	Sleeps           int64 // time.Sleep calls of the code under test
 	ClockJumps       int64 // times the clock jumped to the earliest sleeper because nothing could run
+	ProcQueries      int64 // runtime.GOMAXPROCS / NumCPU queries answered with the simulated value
 	Crashes          int64 // runs ended by an unrecovered panic on a goroutine of the code under test
 }
 
@@ -147,6 +148,9 @@ var (
 	simNow int64
 	runGen int64
 
+	simProcs    int
+	procsLoaded bool
+
 	abortHook func(kind string, detail string)
 )
 
@@ -164,6 +168,9 @@ type Config struct {
 	ClockBase int64
 	// SpinSleep lets parked tasks sleep instead of spinning on Gosched (for GOMAXPROCS > 1).
 	SpinSleep bool
+	// Procs is the simulated number of processors: what runtime.GOMAXPROCS(0) and
+	// runtime.NumCPU() return to instrumented code (0 = 1).
+	Procs int
 }
 
 // SetAbortHook registers the function called when a run cannot continue
@@ -210,6 +217,8 @@ func Load(c *Config) {
 		stepCap = 1 << 40
 	}
 	spinSleep = c.SpinSleep
+	simProcs = c.Procs
+	procsLoaded = true
 	simNow = c.ClockBase
 	st = Stats{}
 	st.ClockMin = simNow
